@@ -12,19 +12,20 @@ set_option hygiene false in
 /-- the rest of the proof once the loop has been rewritten to `loopOutG ..` (`hspec` = `loopOutG_spec` for the
     layout at hand): split on what the MODEL's loop returns, finish the function, compare the decision trees -/
 local macro "snap_tail " hspec:term : tactic => `(tactic| (
+  eval_preLog hpl
   generalize hL : loopOutG _ _ _ _ _ _ _ _ _ = r
   have hs := $hspec _ _ _ _ hL
   clear hL
   simp only [SL.readerProg, readerOutcome]
-  rcases hrl : SL.readerLoop {} (typedInp inp) SL.RETRIES 2 (typedInp inp 1) with ⟨accs, _ | ⟨g', cells⟩⟩
+  rcases hrl : SL.readerLoop snapAnn (typedInp inp) SL.RETRIES 2 (typedInp inp 1) with ⟨accs, _ | ⟨g', cells⟩⟩
   · rw [hrl] at hs
     obtain ⟨st', rfl, h2, h3⟩ := hs
     simp [rs_eval, h2, h3, resultValue, readerValue, wordsValue]
-    split_ifs <;> simp_all [accValue, locValue, locTy, ordValue, ordering] <;> omega
+    split_ifs <;> simp_all [accValue, locValue, locTy, ordValue, ordering, snapAnn, hpl, evOrd, ordOfValue, evLoad] <;> omega
   · rw [hrl] at hs
     obtain ⟨st', rfl, h2, h3⟩ := hs
     simp [rs_eval, h2, h3, resultValue, readerValue, wordsValue]
-    split_ifs <;> simp_all [accValue, locValue, locTy, ordValue, ordering] <;> omega))
+    split_ifs <;> simp_all [accValue, locValue, locTy, ordValue, ordering, snapAnn, hpl, evOrd, ordOfValue, evLoad] <;> omega))
 
 set_option maxRecDepth 8000 in
 set_option maxHeartbeats 4000000 in
@@ -33,7 +34,7 @@ set_option maxHeartbeats 4000000 in
 theorem snapshot_tie (inp : Nat → Nat) (cg : Nat) (cache : List Nat) (nowNs : Int) (sizes : List (String × Nat))
     (F : Nat) (hF : SL.RETRIES ≤ F) :
     runFuel (F + 200) (sctx nowNs sizes inp) "ShmReader::snapshot" (readerValue cg cache) []
-    = readerOutcome (SL.readerProg {} (typedInp inp) cg cache) := by
+    = readerOutcome (SL.readerProg snapAnn (typedInp inp) cg cache) := by
   -- the source literal `1_000_000` is the model's RETRIES (the only place where RETRIES is unfolded)
   have hR : ((SL.RETRIES : Nat) : Int) = 1000000 := rfl
   have hR2 : SL.RETRIES ≤ 2147483647 := by decide
@@ -43,21 +44,35 @@ theorem snapshot_tie (inp : Nat → Nat) (cg : Nat) (cache : List Nat) (nowNs : 
         2 ⟨0, rfl⟩ (typedInp inp 1)
      have hgood := loopOutG_spec (typedInp inp) cg cache (LS .i32 (typedInp inp 0)) (goodMk_LS _ _ _ _ rfl)
         SL.RETRIES (LS .infer (typedInp inp 0)) (goodMk_LS _ _ _ _ rfl)
-     simp only [LS, nm, nth, topLets, sfr, hR, readerValue, wordsValue, rs_eval, rs_code] at hloop
+     simp [LS, LSg, probeEnv, probeSt, loopPrefix, probeInp, relabel, rawInp, sfr, hR, readerValue, wordsValue, rs_eval, rs_code] at hloop
      -- the function up to the loop: version load, generation load, the three early returns
      simp [rs_eval, rs_code, readerValue, wordsValue, rawInp, typedInp_0, typedInp_1]
      rw [hloop _ _ (by omega)]
      clear hloop hR hR2 hF
      snap_tail hgood)
   | -- the `for` form
-    (have hloop := loop_eq_for inp nowNs sizes _ _ _ rfl (typedInp inp 0) cg cache SL.RETRIES 0
+    (have hloop := fun t => loop_eq_for inp nowNs sizes _ _ _ rfl (typedInp inp 0) cg cache SL.RETRIES t 0
         2 ⟨0, rfl⟩ (typedInp inp 1)
      have hgood := loopOutG_spec (typedInp inp) cg cache (LSf (typedInp inp 0)) (goodMk_LSf _ _ _ _ rfl)
         SL.RETRIES (LSf (typedInp inp 0)) (goodMk_LSf _ _ _ _ rfl)
-     simp only [LSf, nm, nth, topLets, sfr, hR, Int.zero_add, readerValue, wordsValue, rs_eval, rs_code] at hloop
+     simp [LSf, LSg, probeEnv, probeSt, loopPrefix, probeInp, relabel, rawInp, sfr, hR, Int.zero_add, readerValue, wordsValue, rs_eval, rs_code] at hloop
      simp [rs_eval, rs_code, readerValue, wordsValue, rawInp, typedInp_0, typedInp_1]
-     rw [hloop _ _ (by omega)]
+     rw [hloop _ _ _ (by omega)]
      clear hloop hR hR2 hF
      snap_tail hgood)
+
+/-- the writer program only reads the writer fields of the annotation -/
+theorem writerProg_snapAnn (g : Nat) (cells : List Nat) : SL.writerProg snapAnn g cells = SL.writerProg writeAnn g cells := by
+  simp [SL.writerProg, snapAnn]
+
+set_option maxRecDepth 8000 in
+set_option maxHeartbeats 2000000 in
+/-- the annotation found in the source is one the seqlock properties (C02, C03) are proved for -/
+theorem snapAnn_adequate : snapAnn.adequate = true := by
+  eval_bodyLog hbl
+  eval_preLog hpl
+  have hw := writeAnn_rel
+  simp [SL.Ann.adequate, snapAnn, hbl, hpl, evOrd, isFenceEv, lastOf, ordOfValue, evLoad, evFence, SL.Ord.isAcq] at hw ⊢
+  simpa using hw
 
 end ClockBound.Rs.SeqlockProof
